@@ -700,6 +700,25 @@ func generate(c *ctx, g *gen, thorough bool) {
 			}
 		}
 	}
+	// wave 6: a parameter list wider than 1024 members (theorems C03_json_roundtrip_wide* removed the width
+	// guard: strconv.Itoa, the input walk's default key, and strconv.FormatInt, the serializer's default name,
+	// agree at every index).  A string named "s" and 1030 unnamed uint8 (default names "1" .. "1030"): the
+	// model's document must equal the implementation's (code 4), denote the value (13) and - Go side, with
+	// the real strconv.Itoa - parse and encode back to the bytes (14).
+	{
+		kids := []*T{{K: kString, Name: "s"}}
+		vs := []*V{vbytes([]byte("wide"))}
+		for i := 1; i <= 1030; i++ {
+			kids = append(kids, &T{K: kUint, M: 8})
+			vs = append(vs, vnum(big.NewInt(int64((i*7+r.Intn(256))%256))))
+		}
+		t := &T{K: kTuple, Kids: kids}
+		v := vlist(vs)
+		c.addSer(t, v, serCfg{0, 1, 1, 3})
+		c.addSer(t, v, serCfg{0, 3, 0, 0})
+		c.addSer(t, v, serCfg{2, 0, 2, 1})
+		st.Hit("ser:wide-tuple-1031")
+	}
 	st.Samples = append(st.Samples,
 		"CDec (TCTuple [TCDynArr (TCTuple [TCElem EString ..; TCElem EUInt \"8\" 8 0 ..]) ..]) (VList [VList [VList [VBytes ..; VNum 255]]]) pre=4 bytes post=[]",
 		"CRaw ((uint256,bytes)[]) word 2 (element offset) replaced by len+1",
